@@ -390,14 +390,68 @@ def gen_enums(const_names):
     return "\n".join(lines) + "\n"
 
 
+def gen_wasm_finalize():
+    """provider/src/lib.rs, the wasm-only `finalize` export (not compiled natively, so no run here can see it):
+    the six words it hands to the host, as tokens — output pointer, output length, then the log ring's read
+    pointers in the order `read_ptrs` returns them.  Element-wise assignments and one array literal are both read."""
+    src = strip_comments(strip_tests(read("provider/src/lib.rs")))
+    m = re.search(r'export_name\s*=\s*"finalize"\s*\]\s*(?:pub\s+)?extern\s+"C"\s+fn\s+\w+\s*\([^)]*\)\s*->\s*[^{]+\{', src)
+    if not m:
+        raise ExtractError("the wasm export `finalize` was not found")
+    depth, i = 1, m.end()
+    while depth and i < len(src):
+        depth += {"{": 1, "}": -1}.get(src[i], 0)
+        i += 1
+    body = src[m.end():i - 1]
+    slots = {}
+    for idx, e in re.findall(r"\w+\s*\[\s*(\d)\s*\]\s*=\s*([^;]+);", body):
+        slots[int(idx)] = e
+    if not slots:
+        lit = re.search(r"=\s*\[([^\]]+)\]\s*;", body)
+        if lit:
+            for k, e in enumerate([x for x in lit.group(1).split(",") if x.strip()]):
+                slots[k] = e
+    if sorted(slots) != [0, 1, 2, 3, 4, 5]:
+        raise ExtractError("the six words `finalize` hands to the host were not recognised")
+    outv = re.search(r"let\s+(\w+)\s*=\s*context\s*\.\s*output_bytes\s*\.\s*(?:as_vec|as_slice)\(\)\s*;", body)
+    tup = re.search(r"let\s*\(\s*(\w+)\s*,\s*(\w+)\s*,\s*(\w+)\s*,\s*(\w+)\s*\)\s*=\s*context\s*\.\s*logs\s*\.\s*read_ptrs\(\)\s*;", body)
+    names = {}
+    if tup:
+        for k, tok in enumerate(["log_ptr1", "log_len1", "log_ptr2", "log_len2"]):
+            names[tup.group(k + 1)] = tok
+    toks = []
+    for k in range(6):
+        e = re.sub(r"\s+as\s+(usize|_)\b", "", slots[k]).strip()
+        e = re.sub(r"\s+", "", e)
+        if outv and e == outv.group(1) + ".as_ptr()" or e in ("context.output_bytes.as_vec().as_ptr()", "context.output_bytes.as_slice().as_ptr()"):
+            toks.append("out_ptr")
+        elif outv and e == outv.group(1) + ".len()" or e in ("context.output_bytes.as_vec().len()", "context.output_bytes.as_slice().len()"):
+            toks.append("out_len")
+        elif e in names:
+            toks.append(names[e])
+        else:
+            toks.append("?" + e[:40])
+    lines = ["-- REGENERATED by /verif/extract/extract.py from provider/src/lib.rs (wasm-only `finalize`); do not edit",
+             "namespace SfVerif.Gen",
+             "/-- the six words handed to the host, in slot order -/",
+             "def wasmFinalizeSlots : List (List Nat) := [\n  %s\n]" % ",\n  ".join(name_lit(t) for t in toks),
+             "end SfVerif.Gen"]
+    return "\n".join(lines) + "\n"
+
+
 def gen_api_status():
     """api/src/write.rs: the function that turns the provider's numeric write status into the api crate's
     error (found by its use of `WriteResult::from_repr`); emitted as a table of (status, error) names"""
     aw = strip_comments(strip_tests(read("api/src/write.rs")))
     if "WriteResult::from_repr" not in aw:
         raise ExtractError("no function in api/src/write.rs decodes the status with WriteResult::from_repr")
-    arms = re.findall(r"Some\(\s*WriteResult::(\w+)\s*\)\s*=>\s*(Ok\(\s*\(\)\s*\)|Err\(\s*(?:\w+::)*(\w+)\s*\))", aw)
-    none = re.search(r"\b(?:None|_)\s*=>\s*Err\(\s*(?:\w+::)*(\w+)\s*\)", aw)
+    # arms of the match on the decoded status, with or without the `Some(..)` wrapper
+    arms = re.findall(r"(?:Some\(\s*)?WriteResult::(\w+)\s*\)?\s*=>\s*(Ok\(\s*\(\)\s*\)|Err\(\s*(?:\w+::)*(\w+)\s*\))", aw)
+    # what an unknown number becomes: a `None` / `_` arm, or the `else` of a `let Some(..) = .. else`, or a combinator default
+    none = (re.search(r"\b(?:None|_)\s*=>\s*(?:return\s+)?Err\(\s*(?:\w+::)*(\w+)\s*\)", aw)
+            or re.search(r"from_repr\([^;{]*\)\s*else\s*\{\s*return\s+Err\(\s*(?:\w+::)*(\w+)\s*\)", aw)
+            or re.search(r"from_repr\([^;]*?\)\s*\.\s*(?:map_or|ok_or)\(\s*Err\(\s*(?:\w+::)*(\w+)\s*\)", aw)
+            or re.search(r"from_repr\([^;]*?\)\s*\.\s*ok_or\(\s*(?:\w+::)*(\w+)\s*\)", aw))
     if not arms or not none:
         raise ExtractError("the status-to-error match in api/src/write.rs was not recognised")
     rows = [(st, "Ok" if rhs.startswith("Ok") else err) for st, rhs, err in arms]
@@ -1523,7 +1577,8 @@ def main():
                                ("WriterStep.lean", "writer", gen_writer),
                                ("ReadEntry.lean", "read-entries", gen_read_entries),
                                ("DeInt.lean", "deint", gen_deint),
-                               ("ApiStatus.lean", "api-status", gen_api_status)]:
+                               ("ApiStatus.lean", "api-status", gen_api_status),
+                               ("WasmFinalize.lean", "wasm-finalize", gen_wasm_finalize)]:
         try:
             text = gen()
             if write_if_changed(fname, text):
